@@ -558,7 +558,10 @@ def ground_truth(case, **extra):
     with Project(case, "gt") as pr:
         # `ignore` and `warnings` are switched off by override as well (not only read around with filter_ignore=False):
         # the ground truth must not depend on how the code under test represents suppressed violations
-        gt_over = {"ignore": "", "warnings": ""}
+        # (`ignore = templating` is kept: it is not only a filter, it also makes the templaters substitute undefined
+        # variables instead of raising a templating error, so no such error exists in that configuration)
+        keep = "templating" if "templating" in str(effective(case).get("ignore") or "") else ""
+        gt_over = {"ignore": keep, "warnings": ""}
         gt_over.update(extra)
         lnt = Linter(config=root_config(pr, disable_noqa=True, **gt_over))
         res = lnt.lint_paths((pr.path,), fix=True, apply_fixes=False)
